@@ -14,6 +14,7 @@ PD1 = {'kind': 'rpd', 'seed': 11, 'dim': 1, 'species': 'nasa', 'n': 4, 'm1': 6, 
 PD2 = {'kind': 'rpd', 'seed': 12, 'dim': 2, 'species': 'statmech', 'n': 3, 'm1': 4, 'm2': 3,
        'x1': 'T', 'x2': 'G1_kwargs', 'norm_mode': 'coverage', 'units': None, 'slices': 3}
 SP = {'kind': 'rspan', 'seed': 5, 'ts': [True, False, True, True], 'gas': True, 'units': 'kJ/mol'}
+SPN = {'kind': 'rspan', 'seed': 9, 'ts': [True, False, True], 'gas': False, 'noncontig': True, 'units': 'eV'}
 
 
 def bump(dec, rel=1e-4):
@@ -59,12 +60,18 @@ def corruptions(base):
         out.append(('SpanDefinition', 2, api_idx, ev, None, None))
     ev = copy.deepcopy(base[2]); ev[0]['finite'] = False
     out.append(('Finite', 2, 0, ev, None, None))
+    # non-contiguous sequence: a later step's reactant state pushed above every state
+    # (what the library reported is then no longer highest - lowest over ALL states)
+    ev = copy.deepcopy(base[3])
+    top = max(m * 10.0 ** e for st in ev[0]['steps'] for m, e in [st['r']] + st['t'] + [st['p']])
+    ev[0]['steps'][1]['r'] = core.to_dec(top + 5.0)
+    out.append(('SpanDefinition', 3, 0, ev, None, None))
     return out
 
 
 def main():
     base = []
-    for case in (PD1, PD2, SP):
+    for case in (PD1, PD2, SP, SPN):
         events, mism = c19.execute(case)
         if mism:
             print('library raised / mismatched on the base case:', mism); return 1
@@ -81,7 +88,7 @@ def main():
         print('%-32s -> %s %s' % (want, got, 'ok' if ok else 'UNEXPECTED'))
         bad += 0 if ok else 1
     # a line whose record lacks a field the spec reads: the trace cannot be consumed
-    evs = copy.deepcopy(base[2]); del evs[1]['G']
+    evs = copy.deepcopy(base[2]); del evs[0]['steps']
     try:
         core.validate_traces('Trace_Extrema', 'Trace_Extrema', [(0, evs)], shards=1)
         print('missing field: consumed (UNEXPECTED)'); bad += 1
